@@ -38,9 +38,16 @@ func referenceClusters(c *sc.Case) ([]int, bool) {
 	if c.API != sc.APIHarfbuzz || !c.InRange() {
 		return nil, false
 	}
-	for _, r := range c.Text {
+	// values that are not representable as hb_codepoint_t the same way (negative runes) are given
+	// to the reference as U+FFFD: the cluster structure compared by the matcher does not depend
+	// on which invalid value it was
+	text := c.Text
+	for i, r := range c.Text {
 		if r < 0 {
-			return nil, false // not representable as hb_codepoint_t the same way
+			if &text[0] == &c.Text[0] {
+				text = append([]rune(nil), c.Text...)
+			}
+			text[i] = 0xFFFD
 		}
 	}
 	f := refFace(c)
@@ -57,7 +64,7 @@ func referenceClusters(c *sc.Case) ([]int, bool) {
 		flags |= 0x80
 	}
 	in := hbref.Input{
-		Text: c.Text, ItemOffset: c.RunStart, ItemLength: c.RunEnd - c.RunStart,
+		Text: text, ItemOffset: c.RunStart, ItemLength: c.RunEnd - c.RunStart,
 		Flags: flags, ClusterLevel: int(c.ClusterLevel),
 		Invisible: c.Invisible, NotFound: c.NotFound, SetNotFound: c.NotFound != 0,
 	}
